@@ -1412,6 +1412,35 @@ func runX14(p *an.Prog, r *an.Result) {
 			}
 		})
 	}
+	// the operators of the generic value layer (Contains, IndexValue, PropertyValue, Equal, Less of the value
+	// wrappers) do not decide through the call layer's conversion routine: Convert is for handing a value to a
+	// Go function of a declared type, and it turns 1.5 into 1 and "2" into 2 on the way
+	var valueIface *types.Interface
+	for _, n := range moduleNamedTypes(p) {
+		if n.Obj().Pkg() != nil && an.RelPkg(n.Obj().Pkg().Path()) == "values" && n.Obj().Name() == "Value" {
+			valueIface, _ = n.Underlying().(*types.Interface)
+		}
+	}
+	for _, fn := range p.Funcs {
+		if valueIface == nil || fn.Blocks == nil || fn.Pkg == nil || an.RelPkg(an.Outermost(fn).Pkg.Pkg.Path()) != "values" {
+			continue
+		}
+		o := an.Outermost(fn)
+		if o.Signature.Recv() == nil || !(types.Implements(o.Signature.Recv().Type(), valueIface) || types.Implements(types.NewPointer(o.Signature.Recv().Type()), valueIface)) {
+			continue
+		}
+		an.EachInstr(fn, func(in ssa.Instruction) {
+			c, ok := in.(*ssa.Call)
+			if !ok {
+				return
+			}
+			switch an.CallName(&c.Call) {
+			case "values.Convert", "values.MustConvert", "values.MustConvertItem":
+				r.Counts["conversion routine in a value operator"]++
+				r.Bad(an.FuncName(fn), "a value operator decides through "+an.CallName(&c.Call), c.Pos(), fmt.Sprintf("%s converts an operand with the call layer's conversion routine before comparing or looking up: membership, equality and lookup are decided on the values themselves (values.Equal), and the routine is lossy - [1, 2] would contain 1.5 and \"2\"", an.FuncName(fn)))
+			}
+		})
+	}
 	r.Floor("conversions to a run-time type", 2)
 }
 
